@@ -271,7 +271,32 @@ fn write_config(dir: &Path, seed: u64) -> std::path::PathBuf {
     path
 }
 
-fn setup(dir: &Path, seed: u64, ca: &CaHandle, ca_res: &ResourceSet) -> Result<Sys, KrillError> {
+/// Creates CA `ca` with a repository and makes it a child of `parent` (the TA or another CA) with `res`.
+fn add_ca_under(krill: &KrillRuntime, slow: &SlowKrillRuntime, actor: &Actor, ca: &CaHandle, parent_ca: &CaHandle, res: &ResourceSet) -> Result<(), KrillError> {
+    let cam = krill.ca_manager();
+    cam.init_ca(ca.clone(), krill)?;
+    let pub_req = cam.get_ca(ca)?.publisher_request();
+    krill.repo_manager().create_publisher(pub_req, actor)?;
+    let publisher: PublisherHandle = ca.convert();
+    let response = krill.repo_manager().repository_response(&publisher, krill)?;
+    let contact = RepositoryContact::try_from_response(response).map_err(KrillError::rfc8183)?;
+    cam.update_repo(ca.clone(), contact, false, actor, slow)?;
+    let id_cert = cam.get_ca(ca)?.child_request().validate().map_err(KrillError::rfc8183)?;
+    let parent: ParentHandle = parent_ca.convert();
+    let response = cam.ca_add_child(parent_ca, AddChildRequest { handle: ca.convert(), resources: res.clone(), id_cert }, actor, krill)?;
+    cam.ca_parent_add_or_update(ca.clone(), ParentCaReq { handle: parent.clone(), response }, actor, krill)?;
+    for _ in 0..4 {
+        cam.ca_sync_parent(ca, 0, &parent, actor, slow)?;
+        if *parent_ca == ta_handle() { cam.sync_ta_proxy_signer_if_possible(krill)?; }
+        if cam.get_ca(ca)?.all_resources() == *res { break }
+    }
+    cam.cas_repo_sync_single(parent_ca, 0, slow)?;
+    cam.cas_repo_sync_single(ca, 0, slow)?;
+    Ok(())
+}
+
+/// Embedded TA -> CA `mid` (holds `ca_res` for good) -> CA `ca` (the CA under test; `mid` can change what it is entitled to).
+fn setup(dir: &Path, seed: u64, mid: &CaHandle, ca: &CaHandle, ca_res: &ResourceSet) -> Result<Sys, KrillError> {
     krill::constants::enable_test_mode();
     let mut cfg = Config::read_config(write_config(dir, seed)).expect("read config");
     cfg.process().expect("process config");
@@ -288,25 +313,23 @@ fn setup(dir: &Path, seed: u64, ca: &CaHandle, ca_res: &ResourceSet) -> Result<S
     krill.ca_manager().ta_init_fully_embedded(
         uri::Rsync::from_str("rsync://localhost/ta/ta.cer").unwrap(),
         vec![uri::Https::from_str("https://localhost:3000/ta/ta.cer").unwrap()], None, &actor, &slow)?;
-    let cam = krill.ca_manager();
-    cam.init_ca(ca.clone(), &krill)?;
-    let pub_req = cam.get_ca(ca)?.publisher_request();
-    krill.repo_manager().create_publisher(pub_req, &actor)?;
-    let publisher: PublisherHandle = ca.convert();
-    let response = krill.repo_manager().repository_response(&publisher, &krill)?;
-    let contact = RepositoryContact::try_from_response(response).map_err(KrillError::rfc8183)?;
-    cam.update_repo(ca.clone(), contact, false, &actor, &slow)?;
-    let id_cert = cam.get_ca(ca)?.child_request().validate().map_err(KrillError::rfc8183)?;
-    let parent: ParentHandle = ta_handle().convert();
-    let response = cam.ca_add_child(&ta_handle(), AddChildRequest { handle: ca.convert(), resources: ca_res.clone(), id_cert }, &actor, &krill)?;
-    cam.ca_parent_add_or_update(ca.clone(), ParentCaReq { handle: parent.clone(), response }, &actor, &krill)?;
-    cam.ca_sync_parent(ca, 0, &parent, &actor, &slow)?;
-    cam.ca_sync_parent(ca, 0, &parent, &actor, &slow)?;
-    cam.sync_ta_proxy_signer_if_possible(&krill)?;
-    cam.ca_sync_parent(ca, 0, &parent, &actor, &slow)?;
-    cam.cas_repo_sync_single(&ta_handle(), 0, &slow)?;
-    cam.cas_repo_sync_single(ca, 0, &slow)?;
+    add_ca_under(&krill, &slow, &actor, mid, &ta_handle(), ca_res)?;
+    add_ca_under(&krill, &slow, &actor, ca, mid, ca_res)?;
     Ok(Sys { krill, slow, actor })
+}
+
+/// Changes what `mid` entitles `ca` to and lets `ca` fetch its new certificate. Returns whether `ca` ended up with `target`.
+fn resize(sys: &Sys, mid: &CaHandle, ca: &CaHandle, target: &ResourceSet) -> Result<bool, KrillError> {
+    let cam = sys.krill.ca_manager();
+    let parent: ParentHandle = mid.convert();
+    cam.ca_child_update(mid, ca.convert(), UpdateChildRequest::resources(target.clone()), &sys.actor, &sys.krill)?;
+    for _ in 0..4 {
+        cam.ca_sync_parent(ca, 0, &parent, &sys.actor, &sys.slow)?;
+        if cam.get_ca(ca)?.all_resources() == *target { break }
+    }
+    cam.cas_repo_sync_single(mid, 0, &sys.slow)?;
+    cam.cas_repo_sync_single(ca, 0, &sys.slow)?;
+    Ok(cam.get_ca(ca)?.all_resources() == *target)
 }
 
 /// The CA's whole state except its version counter and command bookkeeping.
@@ -417,7 +440,8 @@ fn run(args: &Args) -> i32 {
     let ca = CaHandle::from_str("ca").unwrap();
     let ca_res = res_set("AS64512-AS64600", "10.0.0.0/8, 192.168.0.0/16", "2001:db8::/32");
     let t0 = std::time::Instant::now();
-    let sys = match setup(&dir, args.seed, &ca, &ca_res) { Ok(s) => s, Err(e) => { println!("c05: set-up failed: {e:?}"); return 3 } };
+    let mid = CaHandle::from_str("mid").unwrap();
+    let sys = match setup(&dir, args.seed, &mid, &ca, &ca_res) { Ok(s) => s, Err(e) => { println!("c05: set-up failed: {e:?}"); return 3 } };
     let setup_ms = t0.elapsed().as_millis();
     let cam = sys.krill.ca_manager();
 
@@ -474,7 +498,14 @@ fn run(args: &Args) -> i32 {
     let part_a_ms = t_a.elapsed().as_millis();
 
     // ---------------------------------------------------------------- Part B: end to end on the live CA
-    let live_ranges = ranges_of(&cam.get_ca(&ca).expect("ca").all_resources());
+    let mut live_ranges: Ranges;
+    // The CA's entitlement is switched between the full and a reduced set (at its parent, followed by the
+    // synchronisation that gives it a new certificate): configured definitions and children survive a shrink,
+    // so requests meet ROAs, ASPA customers, router keys and child entitlements that are no longer backed.
+    let reduced_res = res_set("AS64512, AS64514-AS64519, AS64531-AS64600", "10.0.0.0/14, 10.64.0.0/10, 192.168.0.0/16", "2001:db8::/33");
+    let mut reduced_now = false;
+    let mut resizes = 0u64;
+    let resize_every = args.get_u64("resize_every", 45);
     let live_blocks = [Block { v6: false, addr: 0x0a00_0000, len: 8 }, Block { v6: false, addr: 0xc0a8_0000, len: 16 }, Block { v6: true, addr: 0x2001_0db8u128 << 96, len: 32 },
                        Block { v6: false, addr: 0x0a40_0000, len: 12 }, Block { v6: true, addr: (0x2001_0db8u128 << 96) | (7u128 << 80), len: 48 }];
     let (krill, actor) = (&sys.krill, &sys.actor);
@@ -486,6 +517,8 @@ fn run(args: &Args) -> i32 {
         res_set("", "", ""), res_set("AS64512", "", ""), res_set("AS64520-AS64530", "10.5.0.0/16", ""), res_set("", "10.0.0.0/8", "2001:db8:5::/48"),
         res_set("AS65000", "10.5.0.0/16", ""), res_set("", "11.0.0.0/24", ""), res_set("", "192.168.0.0/16, 10.1.0.0/16", ""), res_set("AS64512", "", "2001:db9::/32"),
         res_set("", "10.255.0.0-11.0.0.255", ""), res_set("AS64512-AS64600", "10.0.0.0/8, 192.168.0.0/16", "2001:db8::/32"),
+        res_set("AS64520-AS64525", "10.5.0.0/17", ""), res_set("AS64513-AS64519", "10.0.0.0/12", "2001:db8::/32"), res_set("", "10.0.0.0/14, 10.64.0.0/12", "2001:db8::/34"),
+        res_set("AS64531-AS64540", "192.168.0.0/16", ""),
     ];
     let read_children = |cam: &CaManager| -> Vec<(u64, Ranges)> {
         let c = cam.get_ca(&ca).expect("ca");
@@ -507,12 +540,22 @@ fn run(args: &Args) -> i32 {
     };
     let coq_bview = |v: &[((u32, u64), u64)]| coq_list(&v.iter().map(|((a, k), c)| format!("(({a}, {k}), {c})")).collect::<Vec<_>>());
     let customers = [64512u32, 64513, 64514, 65010, 65011];
-    let providers = [65000u32, 65001, 65002, 65003];
+    let providers = [65000u32, 65001, 65002, 65003, 64100, 64101];
 
     for i in 0..n_e2e {
-        let kind = if i + 1 == n_e2e { 6 } else { rng.weighted(&[26, 26, 18, 8, 22]) };
+        if i > 0 && i % resize_every == resize_every / 2 {
+            let target = if reduced_now { &ca_res } else { &reduced_res };
+            match resize(&sys, &mid, &ca, target) {
+                Ok(true) => { reduced_now = !reduced_now; resizes += 1; }
+                Ok(false) => { out.impl_failures.push(json!({"index": out.w.total, "class": {"kind": "resize", "not_converged": true}, "what": "the CA did not receive the changed resources after the synchronisation rounds"})); }
+                Err(e) => { out.impl_failures.push(json!({"index": out.w.total, "class": {"kind": "resize", "error": true}, "what": format!("changing the CA's resources failed: {e:?}")})); }
+            }
+        }
+        let kind = if i + 1 == n_e2e { 6 } else { rng.weighted(&[24, 24, 16, 13, 23]) };
         let before = ca_fingerprint(cam, &ca);
         let pre_ca = cam.get_ca(&ca).expect("ca");
+        live_ranges = ranges_of(&pre_ca.all_resources());
+        let live_ranges = &live_ranges;
         let mut unexpected: Option<String> = None;
         let (term, rec, refused): (String, Value, bool) = match kind {
             0 | 6 => {
@@ -551,10 +594,14 @@ fn run(args: &Args) -> i32 {
                 let mut remove: Vec<u32> = Vec::new();
                 let gen_provs = |rng: &mut Rng, cust: u32| -> Vec<u32> {
                     let mut ps: Vec<u32> = Vec::new();
-                    match rng.weighted(&[62, 8, 9, 21]) {
-                        0 => { for p in providers { if rng.chance(50) { ps.push(p) } } if ps.is_empty() { ps.push(65000) } if rng.chance(30) { ps.reverse() } }
+                    match rng.weighted(&[58, 7, 16, 19]) {
+                        0 => { for p in providers { if rng.chance(45) { ps.push(p) } } if ps.is_empty() { ps.push(65000) } if rng.chance(30) { ps.reverse() } if rng.chance(20) && ps.len() > 2 { ps.swap(0, 1) } }
                         1 => {}
-                        2 => { ps.push(*rng.pick(&providers)); ps.push(cust); if rng.chance(50) { ps.reverse() } }
+                        2 => { // the customer among 1-4 providers in arbitrary (unsorted) order, at any position
+                            let mut pool: Vec<u32> = providers.to_vec();
+                            for _ in 0..rng.range(1, 4) { let j = rng.below(pool.len() as u64) as usize; ps.push(pool.remove(j)); }
+                            let at = rng.below(ps.len() as u64 + 1) as usize; ps.insert(at, cust);
+                        }
                         _ => { // a repeated provider: adjacent, or with one or two others in between, at either end
                             let p = *rng.pick(&providers);
                             let others: Vec<u32> = providers.iter().cloned().filter(|q| *q != p).collect();
@@ -629,12 +676,18 @@ fn run(args: &Args) -> i32 {
                 let state = read_bview(&pre_ca);
                 let mut add: Vec<(u32, usize)> = Vec::new();
                 let mut remove: Vec<(u32, u64)> = Vec::new();
-                if rng.chance(80) {
-                    let asn = if rng.chance(80) { *rng.pick(&[64512u32, 64513]) } else { 65010 };
+                if !state.is_empty() && rng.chance(45) {
+                    // define an already defined (AS, key) again - same or other request for that key; the AS may have been lost meanwhile
+                    let lost: Vec<((u32, u64), u64)> = state.iter().cloned().filter(|((a, _), _)| !live_ranges.asn.iter().any(|(lo, hi)| *lo <= *a as u128 && *a as u128 <= *hi)).collect();
+                    let ((asn, key_ix), _) = if !lost.is_empty() && rng.chance(70) { *rng.pick(&lost) } else { *rng.pick(&state) };
+                    let variant = if rng.chance(88) { rng.below(2) } else { 2 };
+                    add.push((asn, (key_ix * 3 + variant) as usize));
+                } else if rng.chance(80) {
+                    let asn = if rng.chance(80) { *rng.pick(&[64512u32, 64513, 64513]) } else { 65010 };
                     let ci = if rng.chance(80) { *rng.pick(&[0usize, 1, 3, 4, 6, 7]) } else { *rng.pick(&[2usize, 5, 8]) };
                     add.push((asn, ci));
                 }
-                if rng.chance(50) {
+                if rng.chance(30) {
                     if !state.is_empty() && rng.chance(75) { remove.push(rng.pick(&state).0) } else { remove.push((64513, rng.below(3))) }
                 }
                 let upd = BgpSecDefinitionUpdates {
@@ -654,14 +707,19 @@ fn run(args: &Args) -> i32 {
                 let adds: Vec<String> = add.iter().map(|(a, ci)| format!("mkBD {} {} {} {}", a, csrs[*ci].key_ix, csrs[*ci].csr_ix, csrs[*ci].sig_ok)).collect();
                 let rms: Vec<String> = remove.iter().map(|(a, k)| format!("({a}, {k})")).collect();
                 (format!("CBgp {} {} (mkBU {} {}) {}", coq_res(&live_ranges), coq_bview(&state), coq_list(&adds), coq_list(&rms), o),
-                 json!({"kind": "bgpsec_update", "class": {"kind": "bgpsec_update"}, "state": format!("{state:?}"), "add": format!("{add:?}"), "remove": format!("{remove:?}"), "observed": oj, "after": format!("{post:?}")}), refused)
+                 json!({"kind": "bgpsec_update", "class": {"kind": "bgpsec_update", "redefines_existing_key": add.iter().any(|(a, ci)| state.iter().any(|((sa, sk), _)| sa == a && *sk == csrs[*ci].key_ix))}, "state": format!("{state:?}"), "add": format!("{add:?}"), "remove": format!("{remove:?}"), "observed": oj, "after": format!("{post:?}")}), refused)
             }
             _ => {
                 let state = read_children(cam);
                 let kid_ix = rng.below(4);
                 let kid = kids[kid_ix as usize].clone();
-                let rs = rng.pick(&child_sets).clone();
                 let is_add = rng.chance(if state.len() < 3 { 55 } else { 25 });
+                let current: Option<ResourceSet> = cam.ca_show_child(&ca, &kid).ok().map(|c| c.entitled_resources);
+                let rs = match (&current, is_add) {
+                    // an update to (a subset of) what the child has now - which the CA itself may have lost meanwhile
+                    (Some(cur), false) if rng.chance(45) => if rng.chance(35) { cur.clone() } else { cur.intersection(rng.pick(&child_sets)) },
+                    _ => rng.pick(&child_sets).clone(),
+                };
                 let r = if is_add {
                     cam.ca_add_child(&ca, AddChildRequest { handle: kid, resources: rs.clone(), id_cert: id_cert.clone() }, actor, krill).map(|_| ())
                 } else {
@@ -678,7 +736,8 @@ fn run(args: &Args) -> i32 {
                 };
                 let rr = ranges_of(&rs);
                 (format!("CChild {} {} ({} {} {}) {}", coq_res(&live_ranges), coq_children(&state), if is_add { "CAdd" } else { "CUpdate" }, kid_ix, coq_res(&rr), o),
-                 json!({"kind": "child", "class": {"kind": "child", "op": if is_add { "add" } else { "update" }, "accepted_with_empty_resources": !refused && rs.is_empty()},
+                 json!({"kind": "child", "class": {"kind": "child", "op": if is_add { "add" } else { "update" }, "accepted_with_empty_resources": !refused && rs.is_empty(), "reduced_holding": reduced_now},
+                        "held_now": serde_json::to_value(pre_ca.all_resources()).unwrap(),
                         "state": format!("{state:?}"), "child": kid_ix, "resources": serde_json::to_value(&rs).unwrap(), "observed": oj, "after": format!("{post:?}")}), refused)
             }
         };
@@ -702,8 +761,8 @@ fn run(args: &Args) -> i32 {
     write_json(&args.out.join("stats.json"), &json!({
         "scenario": "c05", "seed": args.seed, "tier": args.tier,
         "evaluations": out.w.total, "distinct_nontrivial": out.distinct.len(),
-        "direct_cases": n_direct, "e2e_cases": n_e2e,
-        "rule": "Part A: random holdings (1-6 blocks per family, some written as ranges), 0-40 configured authorisations, deltas of 0-12 additions and 0-6 removals (70% of deltas drawn from entries valid w.r.t. the state, 30% from every kind of valid and invalid entry: not held, max length below/above, present with same comment, repeated inside the delta, same leading bits in the other address family, remove-then-add, removal of unknown/twice/max-length variant; v4 and v6, AS0, implicit and explicit max length) run through the real Routes::process_updates; Part B: the same kinds of requests plus ASPA, BGPsec and child requests through CaManager on a live CA under an embedded TA, configuration read before and after. A case is one request with its pre-state and the observed outcome; non-trivial = the request is not empty; distinct = distinct canonical case terms",
+        "direct_cases": n_direct, "e2e_cases": n_e2e, "resource_changes_of_the_live_ca": resizes,
+        "rule": "Part A: random holdings (1-6 blocks per family, some written as ranges), 0-40 configured authorisations, deltas of 0-12 additions and 0-6 removals (70% of deltas drawn from entries valid w.r.t. the state, 30% from every kind of valid and invalid entry: not held, max length below/above, present with same comment, repeated inside the delta, same leading bits in the other address family, remove-then-add, removal of unknown/twice/max-length variant; v4 and v6, AS0, implicit and explicit max length) run through the real Routes::process_updates; Part B: the same kinds of requests plus ASPA, BGPsec and child requests through CaManager on a live CA under an embedded TA, configuration read before and after; every few dozen requests the CA's own entitlement is shrunk or restored at its parent (definitions and children survive), so requests also meet router keys, ASPA customers, ROAs and child entitlements that are no longer backed (redefinition of existing router keys, child updates to subsets of the current entitlement). A case is one request with its pre-state and the observed outcome; non-trivial = the request is not empty; distinct = distinct canonical case terms",
         "kind_distribution": out.kinds.0, "result_distribution": out.results.0, "generator_distribution": gen_dist.0,
         "timing_ms": {"setup": setup_ms, "part_a": part_a_ms, "part_b": part_b_ms}, "final_repo_sync": sync,
         "impl_failures": out.impl_failures, "samples": out.samples,
